@@ -130,7 +130,7 @@ func ruleValidCoupling(p *Prog, r *Report) {
 		if drains {
 			r.OK(rule, n, "validation reads to the end of the output", p.Pos(fn.Pos()), "a token loop over the output runs until the decoder reports an error (io.EOF)")
 		} else {
-			r.Bad(rule, n, "validation reads to the end of the output", p.Pos(fn.Pos()), "no validator reads the output to its end: a decode that stops when the root element closes accepts garbage after it")
+			r.Bad(rule, n, "validation reads to the end of the output", p.Pos(fn.Pos()), "no validator reads the output to its end with Decoder.Token: a decode that stops when the root element closes accepts garbage after it, and RawToken does not check that tags match and nest")
 		}
 		// the check must not consume what is returned, and must be made with a strict decoder
 		consumed, relaxed := "", ""
@@ -319,7 +319,8 @@ func drainsToEOF(fn *ssa.Function) bool {
 	found := false
 	eachInstr(fn, func(b *ssa.BasicBlock, in ssa.Instruction) {
 		c, ok := in.(*ssa.Call)
-		if !ok || !isCallTo(&c.Call, "(*encoding/xml.Decoder).Token", "(*encoding/xml.Decoder).RawToken") {
+		// Token, not RawToken: only Token verifies that start and end tags match and nest
+		if !ok || !isCallTo(&c.Call, "(*encoding/xml.Decoder).Token") {
 			return
 		}
 		hdr := innermostLoopHeader(b)
@@ -934,6 +935,41 @@ func ruleAnyXmlList(p *Prog, r *Report) {
 			r.Bad(rule, n, "every list member encoded", p.Pos(fn.Pos()), why)
 		}
 	}
+	// ROOT.explicit: AnyXml names the root itself. Where it hands a map to Map.Xml / Map.XmlIndent it passes a root tag: without
+	// one those methods choose the root from the map's shape (a single key becomes the root, a single key holding a list of maps
+	// yields one top-level element per member) — which is not "exactly one root" for any value.
+	for _, n := range []string{"mxj.AnyXml", "mxj.AnyXmlIndent"} {
+		fn := p.Fn(n)
+		if fn == nil {
+			continue
+		}
+		ord := newOrdinals()
+		eachInstr(fn, func(b *ssa.BasicBlock, in ssa.Instruction) {
+			c, ok := in.(*ssa.Call)
+			if !ok {
+				return
+			}
+			g := staticCallee(&c.Call)
+			if g == nil || (p.Name(g) != "mxj.Map.Xml" && p.Name(g) != "mxj.Map.XmlIndent") {
+				return
+			}
+			cons := ord.key(n, "root tag handed to "+p.Name(g))
+			last := c.Call.Args[len(c.Call.Args)-1]
+			if isNilConst(last) {
+				r.Bad("ROOT.explicit", n, cons, p.Pos(c.Pos()), "the map is encoded without a root tag: the document's root then depends on the shape of the map (several top-level elements for a single key holding a list of maps)")
+				return
+			}
+			if sl, ok := last.(*ssa.Slice); ok {
+				if al, ok := sl.X.(*ssa.Alloc); ok {
+					if at, ok := derefType(al.Type()).Underlying().(*types.Array); ok && at.Len() >= 1 {
+						r.OK("ROOT.explicit", n, cons, p.Pos(c.Pos()), "a root tag is passed")
+						return
+					}
+				}
+			}
+			r.Unknown("ROOT.explicit", n, cons, p.Pos(c.Pos()), "the root tag argument is not a literal list: it may be empty")
+		})
+	}
 }
 
 // outermostRangeOverParam: the header of a range loop over an assertion of prm that contains blk.
@@ -1093,6 +1129,7 @@ func ruleCastParsers(p *Prog, r *Report) {
 		}
 		for _, ps := range parsers {
 			found := false
+			foreign := ""
 			eachInstr(fn, func(b *ssa.BasicBlock, in ssa.Instruction) {
 				c, ok := in.(*ssa.Call)
 				if !ok || !isCallTo(&c.Call, ps) || c.Call.Args[0] != ssa.Value(fn.Params[0]) {
@@ -1103,8 +1140,47 @@ func ruleCastParsers(p *Prog, r *Report) {
 					if globalOf(ng.Cond) == g && ng.Pol {
 						found = true
 					}
+					if og := globalOf(ng.Cond); og != nil && og != g && castOptionVar(p, og) {
+						foreign = og.Name() + " at " + p.Pos(c.Pos())
+					}
 				}
 			})
+			// … or in an unexported helper that receives the input
+			for _, ch := range p.castHelpers(fn) {
+				eachInstr(ch.h, func(b *ssa.BasicBlock, in ssa.Instruction) {
+					c, ok := in.(*ssa.Call)
+					if !ok || !isCallTo(&c.Call, ps) || c.Call.Args[0] != ssa.Value(ch.prm) {
+						return
+					}
+					for _, gd := range dominatingGuards(b) {
+						ng := normGuard(gd)
+						if globalOf(ng.Cond) == g && ng.Pol {
+							found = true
+						}
+						if og := globalOf(ng.Cond); og != nil && og != g && castOptionVar(p, og) {
+							foreign = og.Name() + " at " + p.Pos(c.Pos())
+						}
+					}
+					for _, gd := range dominatingGuards(ch.site.Block()) {
+						ng := normGuard(gd)
+						if og := globalOf(ng.Cond); og != nil && og != g && castOptionVar(p, og) {
+							foreign = og.Name() + " at " + p.Pos(ch.site.Pos())
+						}
+					}
+					// the option may be tested where the helper is called
+					for _, gd := range dominatingGuards(ch.site.Block()) {
+						ng := normGuard(gd)
+						if globalOf(ng.Cond) == g && ng.Pol {
+							found = true
+						}
+					}
+				})
+			}
+			if foreign != "" {
+				r.Bad(rule, "mxj.cast", vn+" alone enables "+ps, p.Pos(fn.Pos()), "the call of "+ps+" is also conditional on another cast switch ("+foreign+"): the switches are documented as independent, so one of them silently disables the other")
+			} else if found {
+				r.OK(rule, "mxj.cast", vn+" alone enables "+ps, p.Pos(fn.Pos()), "no other cast switch guards the call")
+			}
 			cons := vn + " enables " + ps
 			if found {
 				r.OK(rule, "mxj.cast", cons, p.Pos(fn.Pos()), "the parser is applied to the input under the option")
@@ -1113,6 +1189,16 @@ func ruleCastParsers(p *Prog, r *Report) {
 			}
 		}
 	}
+}
+
+// castOptionVar: one of the switches that select what cast() converts.
+func castOptionVar(p *Prog, g *ssa.Global) bool {
+	for _, n := range []string{"mxj.castToInt", "mxj.castToFloat", "mxj.castToBool"} {
+		if p.Globals[n] == g {
+			return true
+		}
+	}
+	return false
 }
 
 // ---- JSON.decoder (C06): every decode of NewMapJson goes through the decoder that honours JsonUseNumber ------------------
